@@ -250,7 +250,35 @@ fn res_coq(r: &Result<Vec<u8>, ()>) -> String {
     match r { Ok(b) => format!("(Some {})", coq_bytes(b)), Err(_) => "None".into() }
 }
 
-pub struct Sink { pub out: Out, pub want_lims: bool }
+pub struct Sink { pub out: Out, pub want_lims: bool, pub inner: Option<Out> }
+
+/// channel "inner": the private bounded decoder of the case's FIRST filter on the case's data
+#[cfg(oxidizepdf_verif)]
+fn emit_inner(s: &mut Sink, c: &Value, data: &[u8]) {
+    use oxidize_pdf::parser::filters::verif_decode_with_limit;
+    let Some(f) = c["filters"].as_array().and_then(|a| a.first()).and_then(|f| f.as_str()) else { return };
+    if f == "FlateDecode" { return; }
+    let p0 = match &c["dp"] { Value::Array(a) => a.first().cloned().unwrap_or(Value::Null), Value::Object(_) => c["dp"].clone(), _ => Value::Null };
+    let ec = p0.get("ec").and_then(|v| v.as_i64());
+    let mut lims: Vec<u64> = c["lims"].as_array().map(|a| a.iter().filter_map(|v| v.as_u64()).collect()).unwrap_or_default();
+    if !lims.contains(&(1u64 << 63)) { lims.push(1u64 << 63); }
+    let mut res = vec![];
+    for &l in &lims {
+        match catch(AssertUnwindSafe(|| verif_decode_with_limit(f, data, ec, l as usize).map_err(|_| ()))) {
+            Ok(r) => res.push((l, r)),
+            Err(m) => {
+                if let Some(o) = s.inner.as_mut() { o.impl_failures.push(json!({"what": format!("panic in private bounded decoder {f} (limit {l})"), "msg": m, "case": c})); }
+                return;
+            }
+        }
+    }
+    let big = res.iter().find(|(l, _)| *l == 1u64 << 63).map(|(_, r)| r.clone()).unwrap();
+    let lc = coq_list(res.iter().map(|(l, r)| format!("({}, {})", l, match (r, &big) { (Err(_), _) => "OErr".to_string(), (Ok(x), Ok(y)) if x == y => "ORef".to_string(), (Ok(x), _) => format!("(OBytes {})", coq_bytes(x)) })));
+    let coq = format!("({}, {}, {}, {})", filt_coq(f), coq_opt(ec.map(|z| coq_z(z as i128))), coq_bytes(data), lc);
+    if let Some(o) = s.inner.as_mut() { o.push(coq, c.clone(), &format!("inner_{f}"), big.as_ref().map_or(false, |b| !b.is_empty())); }
+}
+#[cfg(not(oxidizepdf_verif))]
+fn emit_inner(_s: &mut Sink, _c: &Value, _data: &[u8]) {}
 
 /// runs the real code on one JSON case and appends the Coq case
 pub fn emit_case(s: &mut Sink, c: &Value, class: &str) {
@@ -270,6 +298,9 @@ pub fn emit_case(s: &mut Sink, c: &Value, class: &str) {
         Ok(r2) if r2 == unb => {}
         Ok(_) => return fail(s, "PdfStream::decode and filters::decode_stream disagree", String::new()),
         Err(m) => return fail(s, "panic in decode_stream", m),
+    }
+    if s.want_lims {
+        emit_inner(s, c, &data);
     }
     let mut lims_coq = vec![];
     if s.want_lims {
@@ -501,7 +532,7 @@ pub fn generate(ctx: &Ctx, s: &mut Sink) {
         }}}
     }
     // 5. LZW: lengths crossing the 9->10->11->12-bit boundaries and the 4096 reset
-    let big: Vec<usize> = if th { vec![300, 520, 700, 1100, 1600, 2300, 3200, 5000, 7000, 9000, 12000, 20000, 65536] } else { vec![300, 520, 800, 1600, 3300, 5200] };
+    let big: Vec<usize> = if th { vec![300, 520, 700, 1100, 1600, 2300, 3200, 5000, 6000, 7000, 8000, 9000] } else { vec![300, 520, 800, 1600, 3300, 5200] };
     for n in big {
         for ec in [Some(1), Some(0), None] {
             if ec.is_none() && n > 2000 { continue; }
@@ -576,13 +607,19 @@ pub fn run_with(ctx: &Ctx, checker: &str, want_lims: bool, channel: &str) {
     let header = "From OxVerif Require Import Base.Util C07.Filters C07.Predictor C07.Lzw C07.Chain C07.Codecs C07.Check.";
     let mut out = Out::new(ctx, header, "kase", checker);
     out.shard_size = 120;
-    let mut s = Sink { out, want_lims };
+    let inner = if want_lims {
+        let mut o = Out::new(ctx, header, "inner_case", "inner_code");
+        o.shard_size = 250;
+        Some(o)
+    } else { None };
+    let mut s = Sink { out, want_lims, inner };
     if let Some(cases) = ctx.replay_cases() {
         for c in cases { emit_case(&mut s, &c, "replay"); }
     } else {
         generate(ctx, &mut s);
     }
     s.out.finish(channel);
+    if let Some(o) = s.inner { o.finish("inner"); }
 }
 
 pub fn run(ctx: &Ctx) { run_with(ctx, "c07_code", false, "filters"); }
